@@ -79,6 +79,12 @@ CHECKS = {
         "text": "In the specification every result of a person is a function of the records connected to it and identifiers are labels; TLC proves on all two-household structures that the reference units stay inside households. On the real rule base pairs of dressed populations with disjoint ids are simulated alone, concatenated in both orders, interleaved, and under shift / reverse / sparse relabellings of p_id, hh_id and all pointer columns; TLC (Trace_Sep) requires identical values per person, the same partitions for derived ids and pointer-valued outputs equal modulo the relabelling, over all non-time-derived nodes.",
         "note": "Identifiers bounded by 1e5 (group aggregation allocates max(id)+1 cells); pairs of populations are seeded samples; dtype-class flips caused by unrelated rows are recorded here and judged by C03.",
     },
+    "C03": {
+        "level": "exploration",
+        "technique": "TLA+ definition of a rule column and its storage type (Rows.tla), model check of which result sequences a first-row-typed evaluator corrupts (MC_Rows), TLC trace validation of every rule's production column against the scalar rule per row in two adversarial row orders (Trace_Rows with a dtype history variable)",
+        "text": "Rows.tla defines Column(f, rows)[i] = f[rows[i]] with the declared storage type; MC_Rows shows which sequences of result kinds are corrupted when the storage type is inferred from the first row (the replay seeds: narrowest result first). For every internal rule (all validity periods) argument rows are drawn, the raw scalar rule is applied to each row alone, and the production column is computed through the public API with the rule as only target in narrowest-first and widest-first order; TLC validates every cell exactly, the dtype against the declared result type and, with a history variable per rule, that the dtype does not depend on the data.",
+        "note": "Per-row numeric predicate: exploration level. Argument rows are seeded draws from threshold-oriented value lists (24 rows quick, 120 thorough); rows on which the scalar rule raises are discarded; rules that are already array functions or parameter-only are skipped.",
+    },
 }
 
 NOT_APPLICABLE = {}
